@@ -554,6 +554,22 @@ class Lowering:
         node = mod.constants.get(func[2]) if mod is not None else None
         if not isinstance(node, (ast.Call, ast.Lambda)):
             return None
+        # lru_cache(...)(f) / cache(f) of a stdlib function f: memoising a pure function of its argument text
+        # (json.loads, re.compile ...) answers what f answers
+        inner = None
+        if isinstance(node, ast.Call) and len(node.args) == 1 and not node.keywords:
+            head = node.func.func if isinstance(node.func, ast.Call) else node.func
+            hname = head.attr if isinstance(head, ast.Attribute) else head.id if isinstance(head, ast.Name) else None
+            if hname in ("lru_cache", "cache"):
+                inner = node.args[0]
+        if inner is not None:
+            try:
+                f_ = Lowering(self.model, None, mod).expr(inner, {})
+            except Exception:  # noqa: BLE001
+                f_ = None
+            if op(f_) == "ext":
+                return f_
+            return None
         try:
             v = Lowering(self.model, None, mod).expr(node, {})
         except Exception:  # noqa: BLE001
